@@ -224,6 +224,19 @@ func c20Sizes(c *Ctx) {
 	c20Verify(c, j)
 }
 
+// c20OtherJournal is exported after every journal under study (its tables are longer than most).
+var c20OtherJournal = func() *journal.Journal {
+	j := &journal.Journal{}
+	for i := 0; i < 3; i++ {
+		t := journal.Trip{TripUID: fmt.Sprintf("99%d_OTHER", i), TripID: fmt.Sprintf("other-%d", i), RouteID: "OTHER", VehicleID: "other vehicle", StartTime: time.Unix(int64(1600000000+i), 0).UTC(), LastObserved: time.Unix(1600000100, 0).UTC()}
+		for s := 0; s < 4; s++ {
+			t.StopTimes = append(t.StopTimes, journal.StopTime{StopID: fmt.Sprintf("OTHER-STOP-%d", s), LastObserved: time.Unix(1600000100, 0).UTC()})
+		}
+		j.Trips = append(j.Trips, t)
+	}
+	return j
+}()
+
 func c20Harness(maxTrips int) Harness {
 	return func(c *Ctx) { c20Verify(c, c20Gen(c, maxTrips)) }
 }
@@ -312,6 +325,17 @@ func c20Verify(c *Ctx, j *journal.Journal) {
 				k++
 			}
 		}
+		// the tables belong to the caller: exporting another journal afterwards leaves them as they were
+		t1, s1 := string(exp.TripsCsv), string(exp.StopTimesCsv)
+		var err2 error
+		if pan, where, text, _ := guard(func() { _, err2 = c20OtherJournal.ExportToCsv() }); pan || err2 != nil {
+			c.Fail("panic:"+where+":"+text, "exporting a second journal: %s %v", text, err2)
+			return
+		}
+		if string(exp.TripsCsv) != t1 || string(exp.StopTimesCsv) != s1 {
+			c.Fail("earlier-export-overwritten", "the tables of this export changed when another journal was exported afterwards\nbefore:\n%s%s\nafter:\n%s%s", t1, s1, exp.TripsCsv, exp.StopTimesCsv)
+			return
+		}
 		if len(j.Trips) >= 2 && nst >= 3 {
 			c.Witness("several_trips_and_stop_times")
 		}
@@ -326,7 +350,7 @@ func init() {
 		ID:    "C20",
 		Level: "model_checking",
 		Rule: "journals with 0..2 (thorough 0..3) trips x 0..2 stop times per trip (full product over the counts) x k deviations (quick 2, thorough 3) over presence of track/arrival/departure/marked-past, direction (0/1/unspecified/out-of-range), id shapes (NYCT-like, empty, spaces, leading space, non-ASCII, invalid UTF-8, characters such as + & < > ' ; | \\ that are special in other formats but not in CSV), counters (negative, zero, large), zero start times, present optional times that are the zero time.Time, instants with sub-second parts of 0.5 s and more, a stop time repeated verbatim after itself; journals of 7..4099 trips (around powers of two, not multiples of 8) x 4 patterns of stop times per trip; " +
-			"non-trivial = distinct journals with at least one trip; oracle = read back with encoding/csv by header name, cell-by-cell, journal dumped before/after",
+			"non-trivial = distinct journals with at least one trip; oracle = read back with encoding/csv by header name, cell-by-cell, journal dumped before/after, tables re-read after another journal was exported",
 		Assumptions: []string{"ids and tracks are free of comma, double quote, CR and LF, as the property stipulates", "header names of the two tables are part of the observable interface"},
 		Scenarios: func(tier string) []*Scenario {
 			if tier == "thorough" {
